@@ -201,9 +201,18 @@ def source_sql(model, pre, op):
     return mat.replace("GROUP BY", pred)
 
 
-def fetch_rollup(con, g):
+def rollup_table(h):
+    """the name the API histories give the rollup table: bare, schema-qualified, database-qualified or both (the database of a DuckDB file is the file's stem: data.db ->
+    data), chosen by a checksum of the history's own operations (the generators' random streams and a replay are left alone); the command line always uses the bare name"""
+    import zlib
+    if h.get("cli"):
+        return "ev_preagg_r"
+    return ["ev_preagg_r", "ev_preagg_r", "preagg.ev_preagg_r", "data.ev_preagg_r", "data.preagg.ev_preagg_r"][zlib.crc32(repr(h["ops"]).encode()) % 5]
+
+
+def fetch_rollup(con, g, table="ev_preagg_r"):
     try:
-        rows = con.execute("select d_%s, cat, total_raw, n_raw from ev_preagg_r" % g).fetchall()
+        rows = con.execute("select d_%s, cat, total_raw, n_raw from %s" % (g, table)).fetchall()
     except Exception:
         return [(-1, -1, -1, -1)]
     out = []
@@ -237,6 +246,8 @@ def run_impl(h, workdir):
     con = duckdb.connect(dbfile)
     con.execute("create table ev(id bigint, d date, cat bigint, v bigint)")
     con.execute("create table ev_synced as select * from ev")
+    con.execute("create schema if not exists preagg")
+    tname = rollup_table(h)
     if h["cli"]:
         md = os.path.join(workdir, "models")
         os.makedirs(md, exist_ok=True)
@@ -262,9 +273,9 @@ def run_impl(h, workdir):
             prev_refresh_changed = True
             continue
         # ---- a refresh: decide, from the real tables, what the property promises for it
-        before = sorted(fetch_rollup(con, g))
+        before = sorted(fetch_rollup(con, g, tname))
         exists = before != [(-1, -1, -1, -1)]
-        W = con.execute("select max(d_%s) from ev_preagg_r" % g).fetchone()[0] if exists else None
+        W = con.execute("select max(d_%s) from %s" % (g, tname)).fetchone()[0] if exists else None
         Wd = W if W is not None else EPOCH
         if isinstance(Wd, datetime.datetime):
             Wd = Wd.date()
@@ -314,10 +325,10 @@ def run_impl(h, workdir):
         else:
             mode = {"full": "full", "incr": "incremental", "merge": "merge", "merge_m": "merge"}[op[0]]
             src = pre.generate_materialization_sql(model) if mode == "full" else source_sql(model, pre, ">" if mode == "incremental" else ">=")
-            pre.refresh(connection=con, source_sql=src, table_name="ev_preagg_r", mode=mode,
+            pre.refresh(connection=con, source_sql=src, table_name=tname, mode=mode,
                         watermark_column=None if mode == "full" else "d_%s" % g,
                         lookback=("%d days" % op[1]) if op[0] == "merge" and op[1] else ("%d month" % op[1]) if op[0] == "merge_m" else None)
-        after = sorted(fetch_rollup(con, g))
+        after = sorted(fetch_rollup(con, g, tname))
         steps.append({"op": op, "rollup": after, "expect": expect, "full": fresh_full(con, model, pre, g), "before": before, "existed": exists})
         con.execute("drop table ev_synced")
         con.execute("create table ev_synced as select * from ev")
